@@ -18,6 +18,7 @@ MemoLayouts == {L \in Layouts({"uniform", "rect"}, {<<3, 2>>, <<2, 3, 2>>}) : L.
 Memo2Ops == {"shape", "size", "cells", "points", "swap"}
 Memo2Seqs == {<<"copy">> \o s : s \in [1..4 -> Memo2Ops]}
 Memo2Layouts == {L \in MemoLayouts : L.dims = <<3, 2>>}
+StackLayouts == Layouts({"uniform"}, {<<2, 3>>, <<3, 3>>}) \cup {L \in Esri : L.dims = <<3, 3>>}
 GoodLink(a, b) == a.dims = b.dims /\ (a.kind = "esri" => b.loc = "cells") /\ (b.kind = "esri" => a.loc = "cells")
                   /\ (a.kind = "esri" \/ b.kind = "esri" => a.loc = b.loc)
 
@@ -31,9 +32,12 @@ Out ==
                                                  a \in {L \in Layouts({"rect"}, {<<3, 3>>, <<3>>}) : L.order = "F" /\ ~L.rev},
                                                  b \in {L \in Layouts({"rect", "rectb"}, {<<3, 3>>, <<3>>}) : L.order = "F"}})
     \* st: a static link (published once), the second read is observed
-    [] IOEnv.WHAT = "link"   -> SetToSeq({[what |-> "link", src |-> pr[1], dst |-> pr[2], masked |-> ms[1], st |-> ms[2], field |-> FieldC(pr[1])] :
+    \* stk: through a StackTime adapter, two publications (the field and the field + 500) before the pull
+    [] IOEnv.WHAT = "link"   -> SetToSeq({[what |-> "link", src |-> pr[1], dst |-> pr[2], masked |-> ms[1], st |-> ms[2], stk |-> ms[3], field |-> FieldC(pr[1])] :
                                            pr \in {q \in PairLayouts \X PairLayouts : GoodLink(q[1], q[2])},
-                                           ms \in {<<FALSE, FALSE>>, <<TRUE, FALSE>>, <<FALSE, TRUE>>}})
+                                           ms \in {<<FALSE, FALSE, FALSE>>, <<TRUE, FALSE, FALSE>>, <<FALSE, TRUE, FALSE>>}} \cup
+                                         {[what |-> "link", src |-> pr[1], dst |-> pr[2], masked |-> FALSE, st |-> FALSE, stk |-> TRUE, field |-> FieldC(pr[1])] :
+                                           pr \in {q \in StackLayouts \X StackLayouts : GoodLink(q[1], q[2])}})
 ASSUME ndJsonSerialize(IOEnv.OUT_FILE, Out)
 VARIABLE x
 Init == x = 0
